@@ -57,6 +57,10 @@ claim("C13", "finite-domain abstract interpretation of both precedence computati
       "Decides C13.1 (both precedence functions are strictly increasing destination-first, source-second over their whole domain and agree), C13.2 (the sorter compares precedence descending and one field per tie-break), C13.3 (7 list-assembling functions: sorted here or by every caller), C13.4 (first match decides), C13.5 (precedence recomputed unconditionally on normalisation and on legacy writes). Wildcard expansion of IntentionMatch for all pairs is not decided.",
       "DESIGN.md section 3 C13")
 
+claim("C12", "edge-cut dominance of parsing and signing by the CSR shape checks; per-identity-kind typestate over the authorization switch (right ACL question on the identity's own field, error returned, datacenter-equal edge) with exhaustiveness over the implementations of connect.CertURI; edge-cut guard of the provider's Sign by CanSign; value provenance of every x509 template's serial number to the replicated counter (through callers); who-may-write and guard dominance on the roots table; escape rule: no store through a pointer that a state-store reader hands out as the stored row",
+      "Decides C12.1 (one URI, no e-mail SAN, successful parse before signing), C12.2 (service/agent/gateway/server: …WriteAllowed on the identity's own name with its error returned; any other CertURI implementation is rejected; CanSign or trust-domain rewrite in the signing step), C12.3 (datacenter equality for service, gateway, server), C12.4 (serial numbers from the replicated counter; leaf template not a CA), C12.5 (roots table written only by the CAS setter below the exactly-one-active check, and by restore), C12.6 (no in-place mutation of stored rows anywhere in agent/consul, which is what keeps a failed rotation from deactivating the active root). Not decided: that the issued certificate verifies against the active root, provider template handling outside the built-in provider, and rotation atomicity beyond the single-transaction write.",
+      "DESIGN.md section 3 C12")
+
 claim("C20", "registry agreement of archive member names between writer, reader and hash list; value-flow of each registered hash into the copy of its member; edge-cut dominance of every success return by the checksum verification; failure-only paths below mismatch / unlisted-name edges; who-may-call on raft.Restore",
       "Decides C20.1 (writer/reader/hash-list agree on the three members; an unexpected member is an error and never skipped), C20.2 (each hash is fed on write and read; a repeated name continues the same hash), C20.3 (read succeeds only below a successful DecodeAndVerify, which rejects mismatch, unlisted name and missing checksum), C20.4 (Read/Verify succeed only below read and gzip conclusion; raft.Restore only in snapshot.Restore below a successful Read). Byte-exact round trip and detection at every corruption offset (tar/gzip framing) are not decided.",
       "DESIGN.md section 3 C20")
